@@ -746,10 +746,29 @@ class SBitLen:
       return (not r) if isinstance(r, bool) else ~r
     return self.value() > c
 
+  def _eq_const(self, c):
+    # bit_length(x) == c  <=>  2^(c-1) <= |x| < 2^c  (c >= 1); c == 0: x == 0
+    x = self.x
+    if c < 0:
+      return False
+    ax = z3.If(x.t >= 0, x.t, -x.t)
+    if c == 0:
+      return _wrap_bool(ax == 0)
+    return _wrap_bool(z3.And(ax >= (1 << (c - 1)), ax < (1 << c)))
+
   def __eq__(self, c):
+    c = _norm_const(c)
+    if self._v is None and isinstance(c, int) and not isinstance(c, bool) \
+        and isinstance(self.x, SInt):
+      return self._eq_const(c)
     return self.value() == c
 
   def __ne__(self, c):
+    c = _norm_const(c)
+    if self._v is None and isinstance(c, int) and not isinstance(c, bool) \
+        and isinstance(self.x, SInt):
+      r = self._eq_const(c)
+      return (not r) if isinstance(r, bool) else ~r
     return self.value() != c
 
   __hash__ = lambda self: 0
